@@ -48,7 +48,7 @@ StepEv(e) ==
          LET r == SetRes(c, e.u, e.strict, e.old, e.arg)
              g1 == OutcomeMatches(r.out, e.outcome)
              g2 == ~e.has \/ e.got \in r.vals
-             g3 == (r.out = "ok") => e.has IN
+             g3 == (r.out = "ok") => e.has IN   \* (for "not-cve" a constructor may still fail for other reasons)
          /\ Check(g1, "set-outcome:" \o e.how, r.out, e.outcome)
          /\ Check(g2, "set-readback:" \o e.how, SetToSeq(r.vals), e.got)
          /\ Check(g3, "set-constructed:" \o e.how, "object", "none")
